@@ -10,6 +10,7 @@ import (
 	"path/filepath"
 	"sort"
 	"strings"
+	"time"
 
 	"github.com/gopatchy/bkl"
 	"verif/core"
@@ -29,16 +30,28 @@ const c08Budget = 100_000_000
 // and classifies the result. Panics propagate to the worker's recover, which
 // records them as violations with the bkl frame as witness.
 func c08Lib(c *core.Ctx, wit string, desc any, body func() ([]byte, error)) (class string, out []byte) {
+	return c08LibBudget(c, c08Budget, wit, desc, body)
+}
+
+// c08FileBudget bounds evaluations whose steps are dominated by file loading (a $parent
+// chain of <= 3 files needs a few thousand steps; every step of a runaway loader costs a file read).
+const c08FileBudget = 2_000_000
+
+// c08ConfirmedHangs counts CLI hangs this worker has confirmed with the long limit; once a
+// tree has shown two, further candidates are reported after the short limit alone.
+var c08ConfirmedHangs int
+
+func c08LibBudget(c *core.Ctx, budget int64, wit string, desc any, body func() ([]byte, error)) (class string, out []byte) {
 	c.Eval()
 	c.Trans(1)
 	var err error
-	exceeded, used := explore.WithBudget(c08Budget, func() {
+	exceeded, used := explore.WithBudget(budget, func() {
 		out, err = body()
 	})
 	c.Extra("ticks", used)
 	if exceeded {
 		c.Outcome("STEP-BUDGET-EXCEEDED")
-		c.Fail("terminates", "step-budget-exceeded", wit, map[string]any{"budget": c08Budget, "case": desc})
+		c.Fail("terminates", "step-budget-exceeded", wit, map[string]any{"budget": budget, "case": desc})
 		return "budget", nil
 	}
 	if err != nil {
@@ -444,7 +457,7 @@ func buildC08(tier string) *core.Plan {
 				os.WriteFile(filepath.Join(dir, fmt.Sprintf("f%d.yaml", f)), []byte(txt), 0o644)
 			}
 			w := fmt.Sprintf("entry f%d edges %v", g.Entry, g.Edges)
-			cl, out := c08Lib(c, w, g, func() ([]byte, error) { return c08EvalFile(filepath.Join(dir, fmt.Sprintf("f%d.yaml", g.Entry))) })
+			cl, out := c08LibBudget(c, c08FileBudget, w, g, func() ([]byte, error) { return c08EvalFile(filepath.Join(dir, fmt.Sprintf("f%d.yaml", g.Entry))) })
 			c.Validated()
 			if g.cyclicFromEntry() {
 				c.Nontrivial()
@@ -609,10 +622,25 @@ func c08CLI(c *core.Ctx, cs c08CLICase) {
 	cmd.Stdout, cmd.Stderr = &so, &se
 	c.Eval()
 	c.Trans(1)
-	err := runWithWatchdog(cmd)
+	limit := 30 * time.Second
+	if c08ConfirmedHangs >= 2 {
+		limit = 15 * time.Second
+	}
+	err := runWithLimit(cmd, limit)
 	wit := cs.Tool + " " + strings.Join(cs.Args, " ") + " :: " + core.JSON(cs.Files)
 	c.Validated()
+	if err == errWatchdog && c08ConfirmedHangs < 2 {
+		// nominated only: run it once more, alone, with the generous limit before believing it
+		cmd2 := exec.Command(filepath.Join(core.WorkDir(), "bin", cs.Tool), cs.Args...)
+		cmd2.Dir = dir
+		cmd2.Env = cmd.Env
+		so.Reset()
+		se.Reset()
+		cmd2.Stdout, cmd2.Stderr = &so, &se
+		err = runWithWatchdog(cmd2)
+	}
 	if err == errWatchdog {
+		c08ConfirmedHangs++
 		c.Outcome("CLI-HANG")
 		c.Fail("cli-terminates", "hang", wit, nil)
 		return
